@@ -624,3 +624,133 @@ func (c *Ctx) fieldMutated(typ, name string) bool {
 	}
 	return c.mutated[key]
 }
+
+// RefBalanced: for every call in fn of one of the acquire functions (which
+// return a counted reference or nil), every path from the call on which the
+// result is non-nil reaches, before any return, a consumer: a call of one
+// of the release functions on that value, a call of a transfer function
+// with the value among its arguments (ownership moves into the callee's
+// result), or the value being returned. Paths through the result == nil
+// branch need nothing.
+func (c *Ctx) RefBalanced(rule string, fn *ssa.Function, acquire, release, transfer []string) int {
+	isIn := func(n string, l []string) bool {
+		for _, x := range l {
+			if x == n {
+				return true
+			}
+		}
+		return false
+	}
+	n := 0
+	Instrs(fn, func(in ssa.Instruction) {
+		call, ok := in.(*ssa.Call)
+		if !ok || !isIn(CalleeName(call), acquire) {
+			return
+		}
+		n++
+		// values that carry the reference: the call result and phis/extracts fed by it
+		carries := map[ssa.Value]bool{call: true}
+		for changed := true; changed; {
+			changed = false
+			Instrs(fn, func(i2 ssa.Instruction) {
+				if phi, ok := i2.(*ssa.Phi); ok && !carries[phi] {
+					for _, e := range phi.Edges {
+						if carries[e] {
+							carries[phi] = true
+							changed = true
+						}
+					}
+				}
+			})
+		}
+		consumes := func(i ssa.Instruction) bool {
+			switch x := i.(type) {
+			case ssa.CallInstruction:
+				cn := CalleeName(x)
+				if isIn(cn, release) || isIn(cn, transfer) {
+					for _, a := range CallArgs(x) {
+						if carries[a] {
+							return true
+						}
+					}
+				}
+			case *ssa.Return:
+				for _, r := range x.Results {
+					if carries[r] {
+						return true
+					}
+				}
+			}
+			return false
+		}
+		// DFS from the instruction after the call
+		type pos struct {
+			b *ssa.BasicBlock
+			i int
+		}
+		start := pos{call.Block(), 0}
+		for i, x := range call.Block().Instrs {
+			if x == ssa.Instruction(call) {
+				start.i = i + 1
+			}
+		}
+		seen := map[*ssa.BasicBlock]bool{}
+		var leak ssa.Instruction
+		var walk func(p pos)
+		walk = func(p pos) {
+			if leak != nil {
+				return
+			}
+			for i := p.i; i < len(p.b.Instrs); i++ {
+				x := p.b.Instrs[i]
+				if consumes(x) {
+					return
+				}
+				if _, isRet := x.(*ssa.Return); isRet {
+					leak = x
+					return
+				}
+				if ifi, isIf := x.(*ssa.If); isIf {
+					// nil test on the reference: only the non-nil edge matters
+					if bo, ok := ifi.Cond.(*ssa.BinOp); ok && (bo.Op == token.EQL || bo.Op == token.NEQ) {
+						var other ssa.Value
+						if carries[bo.X] {
+							other = bo.Y
+						} else if carries[bo.Y] {
+							other = bo.X
+						}
+						if k, isC := other.(*ssa.Const); isC && k.IsNil() {
+							nonNil := 1 // false edge of ==
+							if bo.Op == token.NEQ {
+								nonNil = 0
+							}
+							s := p.b.Succs[nonNil]
+							if !seen[s] {
+								seen[s] = true
+								walk(pos{s, 0})
+							}
+							return
+						}
+					}
+				}
+			}
+			for _, s := range p.b.Succs {
+				if !seen[s] {
+					seen[s] = true
+					walk(pos{s, 0})
+				}
+			}
+		}
+		walk(start)
+		key := FuncName(fn) + "/ref:" + CalleeName(call) + "(" + NewTermer(fn).T(call.Call.Args[len(call.Call.Args)-1]) + ")"
+		c.Check(leak == nil, rule, key, c.pos(call), "the reference is released, transferred or returned on every non-nil path", "the counted reference obtained here reaches a return (at "+posOf(c, leak)+") without being released or handed on: the endpoint's reference count never drops to zero, so a removed address keeps receiving packets")
+	})
+	return n
+}
+
+func posOf(c *Ctx, in ssa.Instruction) string {
+	if in == nil {
+		return "?"
+	}
+	return c.pos(in)
+}
